@@ -13,10 +13,16 @@ fn usage() -> ! {
 
 fn main() {
     let args: Vec<String> = std::env::args().collect();
+    if std::env::var("VERIF_KEEP_STDOUT").is_err() {
+        runner::silence_stdout();
+    }
     if args.len() < 2 {
         usage();
     }
     let id = args[1].clone();
+    if id == "simscenario" {
+        std::process::exit(simtest::run_file(&args[2], args.iter().any(|a| a == "--history")));
+    }
     if id == "simtest" {
         std::process::exit(simtest::run());
     }
@@ -71,6 +77,30 @@ fn main() {
 fn dispatch(id: &str, ra: RunArgs) -> i32 {
     match id {
         "C34" => run_check(checks::c34::C34, ra),
+        "C07" => run_check(checks::c07::C07, ra),
+        "C08" => run_check(checks::c08::C08, ra),
+        "C19" => run_check(checks::c19::C19, ra),
+        "C16" => run_check(checks::c16::C16, ra),
+        "C17" => run_check(checks::c17::C17, ra),
+        "C01" => run_check(checks::simchecks::c01(), ra),
+        "C04" => run_check(checks::simchecks::c04(), ra),
+        "C05" => run_check(checks::simchecks::c05(), ra),
+        "C06" => run_check(checks::simchecks::c06(), ra),
+        "C09" => run_check(checks::simchecks::c09(), ra),
+        "C02" => run_check(checks::simchecks::c02(), ra),
+        "C03" => run_check(checks::simchecks::c03(), ra),
+        "C26" => run_check(checks::simchecks::c26(), ra),
+        "C27" => run_check(checks::simchecks::c27(), ra),
+        "C28" => run_check(checks::simchecks::c28(), ra),
+        "C07sim" => run_check(checks::simchecks::c07_cluster(), ra),
+        "C12" => run_check(checks::simchecks::c12(), ra),
+        "C32" => run_check(checks::simchecks::c32(), ra),
+        "C10" => run_check(checks::simchecks::c10(), ra),
+        "C11" => run_check(checks::simchecks::c11(), ra),
+        "C14" => run_check(checks::simchecks::c14(), ra),
+        "C29" => run_check(checks::simchecks::c29(), ra),
+        "C30" => run_check(checks::simchecks::c30(), ra),
+        "C31" => run_check(checks::simchecks::c31(), ra),
         _ => {
             eprintln!("unknown property id {id}");
             2
